@@ -144,6 +144,12 @@ Definition fair_progress (osc : oslot -> list action) (order : list oslot) (limi
   | [] => true
   end.
 
+(* Subscription::block_poll polls every image in every call, so "every image with data is served" means: an image whose first
+   visible frame fits the block length limit (a padding frame always does, a data frame when its aligned length is at most the
+   limit) moves forward in this very call, for every positive limit, i32::MAX included *)
+Definition must_block_advance (bl : Z) (fs : list frame) : bool :=
+  match fs with [] => false | f :: _ => (0 <? bl) && (is_pad f || (span f <=? bl)) end.
+
 (* ---- the assembler part ---- *)
 (* payload of the fragment an observation describes: the frame of that image's segment at that offset *)
 Definition seg_frames (s : oslot) : list dlv :=
@@ -217,8 +223,8 @@ Definition judge_sop (st : ostate20) (o : sop) (ob : sobs) : bool :=
         if os_wf sl then
           let '(_, bits, _, _, _, pos, _) := sl in
           let ob1 := (Ok (p' - pos), share, synth_ws pos p', p') in
-          if block_excluded bits pos bl then true
-          else judge_block (os_session sl) bl pos (os_off sl) (os_frames sl) ob1
+          judge_block (os_session sl) bl pos (os_off sl) (os_frames sl) ob1
+          && (if must_block_advance bl (os_frames sl) then pos <? p' else true)
         else true in
       let '(ok, _) := judge_shares jb (fun _ => 0) present raws 0 0 ps in
       ok && out_eqb ret (Ok (fold_right Z.add 0 (map (fun sl => pos_at ps (os_id sl) - os_pos sl) present)))
